@@ -9,10 +9,43 @@ use ppv::mon::*;
 use piecewise_polynomial::*;
 use serde_json::json;
 
+/// Calls whose results are discarded, made immediately before the observed evaluation on the same thread: other forms
+/// at the bit-identical argument (the integral forms of log-polynomials, a log-polynomial of another degree) and a
+/// sibling of the observed polynomial that differs only in its high-order coefficients. Whatever the library remembers
+/// between calls (per-thread memos keyed on the argument or on part of the coefficients) is primed by them.
+fn prime<T: Nums + Evaluate>(m: &mut Mon, r: &mut Rng, c: &[f64], x: f64, log: bool) {
+    m.count("primed_by_related_calls_at_same_argument");
+    let c = c.to_vec();
+    let kind = r.below(4);
+    let w: Vec<f64> = (0..5).map(|_| r.mixed(2.0)).collect();
+    let nhi = r.usize(1, (T::LEN / 2).max(1));
+    let bump = r.mixed(2.0);
+    let _ = guard(move || {
+        if log && kind != 3 {
+            let k = Knot { x, y: w[0] };
+            match kind {
+                0 => { Log(Poly4::from_nums(&w)).integral(k).evaluate(x); }
+                1 => { Log(Poly2::from_nums(&w[..3])).integral(k).evaluate(x); }
+                _ => { Log(Poly3::from_nums(&w[..4])).evaluate(x); }
+            }
+        } else {
+            let mut s = c.clone();
+            let n = s.len();
+            for v in s[n - nhi.min(n)..].iter_mut() {
+                *v = if *v == 0.0 { bump } else { -*v };
+            }
+            T::from_nums(&s).evaluate(x);
+        }
+    });
+}
+
 fn one<T: Nums + Evaluate + Send + 'static>(m: &mut Mon, sink: &mut Sink, r: &mut Rng, log: bool) {
     let (x, xc) = if log { arg_log(r) } else { arg_poly(r) };
     let (c, cc) = coeff_vec(r, T::LEN, if log { x.ln() } else { x });
     let p = T::from_nums(&c);
+    if r.below(8) == 0 {
+        prime::<T>(m, r, &c, x, log);
+    }
     m.eval();
     m.count(&format!("form:{}", T::NAME));
     m.count(&format!("coeffs:{}", cc));
@@ -47,6 +80,17 @@ fn polyn(m: &mut Mon, sink: &mut Sink, r: &mut Rng) {
     m.count(&format!("polyn_len:{}", len));
     m.count(&format!("coeffs:{}", cc));
     let p = PolyN(c.clone());
+    if len >= 2 && r.below(4) == 0 {
+        // the same length and argument, only the high-order coefficients differ, evaluated just before
+        m.count("polyn_primed_by_sibling_with_other_high_coefficients");
+        let mut s = c.clone();
+        let nhi = r.usize(1, len / 2);
+        for v in s[len - nhi..].iter_mut() {
+            *v = if *v == 0.0 { 1.5 } else { -*v };
+        }
+        let q = PolyN(s);
+        let _ = guard(|| q.evaluate(x));
+    }
     let hh = hash_bits(10, c.iter().map(|e| e.to_bits()).chain([x.to_bits(), len as u64]));
     match guard(|| p.evaluate(x)) {
         Err(pn) => m.panic("PolyN evaluate panic", &pn, || json!({"c": hxs(&c), "x": hx(x)})),
@@ -71,10 +115,69 @@ fn canaries(sink: &mut Sink) {
     sink.emit(json!({"t": "ev", "canary": true, "form": "PolyN", "log": false, "c": hs(&[]), "x": h(2.0), "r": h(1e-300), "h": 0, "cc": "canary", "xc": "canary"}));
 }
 
+/// Concurrent lane (see ppv::conc): evaluations of all forms issued from four threads at the same moment; every
+/// distinct value a call ever returned is an ordinary event for the oracle.
+struct CMeta {
+    form: &'static str,
+    log: bool,
+    c: Vec<f64>,
+    x: f64,
+    cc: &'static str,
+    xc: &'static str,
+}
+
+fn conc_one<T: Nums + Evaluate + Send + Sync + 'static>(r: &mut Rng, log: bool, jobs: &mut Vec<ppv::conc::Job>, meta: &mut Vec<CMeta>) {
+    let (x, xc) = if log { arg_log(r) } else { arg_poly(r) };
+    let (c, cc) = coeff_vec(r, T::LEN, if log { x.ln() } else { x });
+    let p = T::from_nums(&c);
+    jobs.push(Box::new(move || vec![p.evaluate(x)]));
+    meta.push(CMeta { form: T::NAME, log, c, x, cc, xc });
+}
+
+fn concurrent_phase(a: &Args, m: &mut Mon, sink: &mut Sink) {
+    let mut r = Rng::lane(a.seed, "C01", a.shard, 7);
+    let n = a.n(6_000, 600_000);
+    let mut jobs: Vec<ppv::conc::Job> = Vec::new();
+    let mut meta: Vec<CMeta> = Vec::new();
+    while (jobs.len() as u64) < n {
+        macro_rules! per {
+            ($t:ident) => {
+                conc_one::<$t>(&mut r, false, &mut jobs, &mut meta);
+                conc_one::<Log<$t>>(&mut r, true, &mut jobs, &mut meta);
+            };
+        }
+        ppv::for_polys!(per);
+        let len = r.usize(0, 12);
+        let (x, xc) = arg_poly(&mut r);
+        let (c, cc) = if len == 0 { (vec![], "empty") } else { coeff_vec(&mut r, len, x) };
+        let p = PolyN(c.clone());
+        jobs.push(Box::new(move || vec![p.evaluate(x)]));
+        meta.push(CMeta { form: "PolyN", log: false, c, x, cc, xc });
+    }
+    match ppv::conc::run(&jobs, 4, if a.thorough() { 300 } else { 60 }, 4) {
+        Err(pn) => m.panic("evaluate panic (concurrent lane)", &pn, || json!({"lane": "concurrent"})),
+        Ok((res, st)) => {
+            m.add("concurrent_calls", st.calls);
+            m.add("concurrent_jobs", jobs.len() as u64);
+            m.add("concurrent_jobs_with_more_than_one_result", st.jobs_with_more_than_one_result);
+            m.extra.insert("max_concurrent_rounds".into(), json!(st.rounds_min));
+            for (e, vals) in meta.iter().zip(res) {
+                for (k, bits) in vals.iter().enumerate() {
+                    m.eval();
+                    m.count("evaluated_concurrently");
+                    let hh = hash_bits(77, e.c.iter().map(|v| v.to_bits()).chain([e.x.to_bits(), e.c.len() as u64, e.log as u64, k as u64]));
+                    sink.emit(json!({"t": "ev", "form": e.form, "log": e.log, "c": hs(&e.c), "x": h(e.x), "r": h(f64::from_bits(bits[0])), "h": hh, "cc": e.cc, "xc": e.xc}));
+                }
+            }
+        }
+    }
+}
+
 pub const FLOORS: &[&str] = &[
     "exact_class", "bounded_class", "form:PolyN", "polyn_len:0", "form:Poly0", "form:Poly8", "form:Log<Poly0>", "form:Log<Poly8>",
     "coeffs:one_hot", "coeffs:cancelling", "coeffs:alternating", "arg:negative", "arg:fractional", "arg:large", "arg:small", "arg:zero",
     "arg:v_ulps_of_one", "arg:v_in_0_1", "arg:v_huge", "arg:v_tiny", "arg:v_subnormal", "evaluated_on_fresh_thread",
+    "evaluated_concurrently", "primed_by_related_calls_at_same_argument", "polyn_primed_by_sibling_with_other_high_coefficients",
 ];
 
 pub fn drive(a: &Args, m: &mut Mon, sink: &mut Sink) {
@@ -93,4 +196,5 @@ pub fn drive(a: &Args, m: &mut Mon, sink: &mut Sink) {
         ppv::for_polys!(per);
         polyn(m, sink, &mut r);
     }
+    concurrent_phase(a, m, sink);
 }
